@@ -135,6 +135,41 @@ Theorem C06_model_satisfies_oracle :
 Proof. exact model_satisfies_oracle. Qed.
 Print Assumptions C06_model_satisfies_oracle.
 
+(** the store as the implementation keeps it (64-bit keys [key64 xx k], tag
+    hashes [md5 s]; SqlHashed.v): if [xx] and [md5] do not collide on what the
+    history and the filter list mention, its tables are the image of the
+    model's tables and every query has the same answer on both *)
+Theorem C06_hashed_store_refines :
+  forall (xx : Z -> str -> Z) (md5 : str -> str) seed (h : list (list event)) fs maxLimit,
+  no_collision xx md5 seed (concat h) fs ->
+  run_h xx md5 seed empty_db h = hash_db xx md5 (run seed empty_db h) /\
+  query_h md5 (run_h xx md5 seed empty_db h) fs maxLimit = query (run seed empty_db h) fs maxLimit.
+Proof. exact hashed_store_refines. Qed.
+Print Assumptions C06_hashed_store_refines.
+
+(** hence the property holds of the hashed store; [no_collision] is used here *)
+Theorem C06_hashed_query_correct :
+  forall (xx : Z -> str -> Z) (md5 : str -> str) seed (h : list (list event)) fs maxLimit,
+  no_collision xx md5 seed (concat h) fs ->
+  gate_valid (concat h) -> ids_functional (concat h) ->
+  e_refs_canonical (concat h) = true -> a_refs_scoped (concat h) = true ->
+  fs <> [] -> Forall (fun f => gate_valid_filter f = true) fs -> 0 < maxLimit <= NoLimit ->
+  exists out, query_h md5 (run_h xx md5 seed empty_db h) fs maxLimit = Some out /\
+              query_spec (concat h) fs maxLimit out.
+Proof. exact hashed_query_correct. Qed.
+Print Assumptions C06_hashed_query_correct.
+
+(** [no_collision] is satisfiable (an injective encoding in place of xxHash32,
+    the identity in place of MD5), and the hashed store then answers as the model *)
+Example C06_no_collision_example :
+  no_collision ex_xx (fun s => s) 0 (concat [[w_meta1; w_note]; [w_del3]]) [f_all; f_limit0].
+Proof. exact no_collision_example. Qed.
+
+Example C06_hashed_query_example :
+  query_h (fun s => s) (run_h ex_xx (fun s => s) 0 empty_db [[w_meta1; w_note]; [w_del3]]) [f_all; f_limit0] NoLimit
+  = Some [w_del3; w_meta1].
+Proof. exact hashed_query_example. Qed.
+
 (** text pinning: the SQL the model was written for is the SQL in /repo *)
 Theorem C06_sql_text_insert_events : g_sql_text_insert_events = pinned_insert_events.
 Proof. exact sql_text_pinned_insert_events. Qed.
